@@ -1,28 +1,36 @@
 /-
-L8 — a whole run of `cnfgen` or `pbgen`: argv ↦ the text written to stdout, with the module-level generator as an explicit
-input.  The model COMPOSES what exists — it adds no new sampler or family:
+L8 — a whole run of `cnfgen` or `pbgen`: argv (and the contents of the files it names) ↦ the text written to stdout and the
+files written by `save`, with the module-level generator as an explicit input.  The model COMPOSES what exists — it adds no
+new sampler or family:
 
-  * the ORDER of the steps is the phase table regenerated from the source (`Generated/Phases.lean`): `cliRun`
+  * the ORDER of the steps is the phase table regenerated from the source (`Generated/Phases.lean`): `toolRun`
     walks the event list of the tool (`parse`, `random.seed`, `build`, transformations, header entries, output);
-  * sub-command tokens ↦ library call: `Cli/Dispatch.lean` (argparse fragment + call templates from the source);
+  * the command line is split around `-T` (`Cli/Chain.lean`); sub-command and transformation tokens ↦ library call:
+    `Cli/Dispatch.lean` (argparse fragment + call templates from the source);
   * graph arguments are materialised WHILE PARSING (as the argparse actions do): `GSpec.makeGraphFromSpec`
-    (`parse_graph_argument` + `obtain_graph`, all in-house samplers as functions of draws);
-    `networkx.gnp_random_graph` is modelled here (`nxGnp`: one `random()` per pair, in `combinations` order);
-  * `randkcnf [-p]`, `randkxor [-p]`: `Rand.cliRandKCNF`, `Rand.cliRandKXORSys`; `kcolor k G`: `Fam.coloring`;
+    (`parse_graph_argument` + `obtain_graph`, all in-house samplers as functions of draws); the networkx generators are
+    `nxGnp` (one `random()` per pair), `Nx.gnmSimple`, `Nx.gndSimple` (Rand/NxDraws.lean); a graph FILE is read from
+    `World.files` (content by path token, `GraphFmt.readText`), `save` writes through `GraphFmt.writeText`;
+  * families: `Rand.cliRandKCNF`, `Rand.cliRandKXORSys`, `Fam.coloring`, `Fam.tseitin` (charges from `random.randint`),
+    `Fam.gphp`, `Fam.domset`, `Fam.G2.cliqueFormula`; transformations: `Shuffle.run`, `Subst.compress` after
+    `GRand.leftRegular`, `Subst.xorSubst/orSubst/majSubst/flip`;
   * header + text: `IO.renderDimacsText` (cnfgen), `IO.renderOpbText` of the OPB rendering (pbgen, `formula_class=OPB`).
 
-The generator.  A state of Python's generator is represented by what it WILL answer (`Rng`): the record of the
-answers to the calls of the graph samplers (`GRand.Draw`) and to the calls of the formula samplers (`Rand.Draw`) —
-the two draw vocabularies of the existing sampler models; no modelled sub-command draws in both phases.
+The generator.  A state of Python's generator is represented by what it WILL answer (`Rng`): an ordered stream for the calls
+made while parsing and an ordered stream for the calls made afterwards (build and the whole `-T` chain share ONE stream);
+every answer is tagged with the vocabulary of the sampler model that asks for it (`RDraw`).
 `σ : Int → Rng` is `random.seed`: the state it installs is a function of the seed alone (the ONLY assumption
 on CPython's generator besides the legality of answers, which the samplers check).  Hidden input of the process:
 the initial state `rng₀`.  Nothing else in the model can depend on the process: there is no set, no dict, no
-address, no clock in it — the tie of THAT to the source is the reviewed hazard list (`Props/C07/Hazards.lean`).
+address, no clock, no working directory in it — the tie of THAT to the source is the reviewed hazard list
+(`Props/C07/Hazards.lean`).
 
 Fragment (anything else is `unsupported`, never guessed): options `--seed <int>` / `-S <int>` (canonical decimal
-integers), `-q`, `--quiet`, `-v`, `--verbose`; no `-T`; sub-commands `randkcnf`, `randkxor`, `kcolor`; graph
-specifications `gnp N p [t]`, `empty N`, `complete N` with `plantclique`, `addedges`, `splitedges` (no `save`, no
-files).  Import-free.
+integers), `-q`, `--quiet`, `-v`, `--verbose`; sub-commands `randkcnf`, `randkxor`, `kcolor`, `tseitin`, `php <bipartite>`,
+`domset`, `kclique`; simple graphs `gnp N p [t]`, `gnm N m`, `gnd N d`, `empty N`, `complete N` with `plantclique`,
+`addedges`, `splitedges`; bipartite `glrp`, `glrm`, `glrd`, `regular`, `empty` with `plantbiclique`, `addedges`; `save` and
+files in the kthlist / dimacs / matrix formats; `-T shuffle | xorcomp N [d] | majcomp N [d] | xor k | or k | maj k | flip`.
+Import-free.
 -/
 import CnfgenModel.Cli.PhaseTable
 import CnfgenModel.Cli.Dispatch
